@@ -175,4 +175,7 @@ def make(world: W.World) -> LoopBox:
         _STATE = None
         world.on_feed = None
 
-    return LoopBox("trio", loop, cleanup)
+    box = LoopBox("trio", loop, cleanup)
+    # the other documented entry point: `await loop.run_async()` inside a trio program that is already running
+    box.extra["run_async"] = lambda: st.run(loop.run_async)
+    return box
